@@ -8,7 +8,11 @@ COMMON = (' SOURCE TIE (code translator): on every run the bodies of the functio
           'harness/code_specs/), and lean/Cellml/Tie/*.lean proves for ALL arguments that each generated definition equals the '
           'hand-model function the property theorems are about, results and exception classes alike; so a semantic edit '
           'of a tied function breaks a proof obligation (or the translation) and the check goes to its failing-input '
-          'search. ')
+          'search. The headline property theorems are moreover RESTATED OVER THE GENERATED DEFINITIONS (loops closed over '
+          'the generated body with the model\'s termination measure, open recursions closed by well-founded recursion) and '
+          'proved as corollaries through the ties in lean/Cellml/Props/<id>Gen.lean; where a tie has a domain hypothesis the '
+          'restated theorem carries it explicitly (notes/reports/TIE2_*.md list which are implied by the property\'s own '
+          'hypotheses). ')
 
 TIE = {
     'C01': 'Tied: Parser._determine_connection_direction = Load.direction (connDir_tie); the body of the while loop of '
@@ -33,13 +37,18 @@ TIE = {
            'that pint parses the rendered string back into the tree.',
     'C04': 'Tied (Tie/Infer*.lean): UnitCalculator._is_dimensionless, _check_unit_of_quantities_equal (incl. the iter / next / '
            'all protocol) and UnitCalculator.traverse with open recursion: child collection for Piecewise / Derivative / '
-           'other and the whole dispatch chain = Infer.traverse for every node kind (traverse_tie; n-ary Add / Mul / Piecewise '
-           'chains of any length via add_spine / mul_spine / ite_spine), on inDomain (excludes oo, nan, fnN = Max/Min/Mod and '
-           'n-ary And/Or with more than two operands, where model and code differ in the exception class only).',
+           'other and the whole dispatch chain = Infer.traverse for every node kind (traverse_tie_nary; n-ary Add / Mul / '
+           'Piecewise chains of any length, fnN = Max / Min / Mod via left_spine), on inDomainN (excludes oo, nan; for fnN '
+           'the operand-failure marker case fnN_disagreement and for And / Or with 3+ operands and_disagreement, where model '
+           'and code raise different UnitError subclasses - both proved as theorems; tie_and_class: both sides reject). '
+           'Props/C04Gen.lean: genTraverse (closed by well-founded recursion) = the model, infer_sound_gen, '
+           'infer_consistent_gen, infer_complete_err_gen, infer_error_trichotomy_gen.',
     'C05': 'Tied (Tie/Convert*.lean): the nested maybe_convert_expr = Convert.maybeConv, maybe_convert_child, one level of '
            'UnitCalculator.convert_expression_recursively = Convert.convert with the model answering the recursive calls '
            '(convert_tie, one lemma per constructor, Piecewise chains of any length by induction), and the two UnitStore '
-           'wrappers. Not tied: n-ary Add / Mul / And / Or beyond two operands (binary form only).',
+           'wrappers; n-ary Add / Mul / And / Or / Max / Min over the flat operand list (Tie/ConvertN.lean: add_loop, mul_loop, '
+           'and_loop, or_loop, fn_loop). Props/C05Gen.lean: convGen (closed generated function) = the model, '
+           'gen_convert_value / _preserves / _target / _identity / _rejects.',
     'C06': 'Tied (Tie/ConvertVar*.lean): convert_variable (driver) and _convert_variable_instance, '
            '_remove_ode_and_assign_rhs_to_new_variable, _convert_state_variable_deriv, _convert_free_variable_deriv, '
            '_replace_references_to_derivatives, _get_unique_name = Model/ConvertVar.lean (convertVariable_tie, '
@@ -70,9 +79,11 @@ TIE = {
            'are NOT tied.',
     'C12': 'Tied (Tie/Sing*.lean): _generate_piecewise = C12.generate (swap, both comparisons, interpolation formula), '
            '_remove_singularities = C12.removeSing, remove_fixable_singularities = C12.traverse (never raises; the unit hung on '
-           'every re-created quantity is a unit of the model\'s store: C18 creation site), _fix_expr_parts partially (no-exp '
-           'case, ones filter, 1/A, the Mul branch; its Add branch is translated but NOT in the theorem). _get_singularity is '
-           'not tied (the model classifies factors semantically; every tie quantifies over the detector).',
+           'every re-created quantity is a unit of the model\'s store: C18 creation site), _fix_expr_parts completely '
+           '(fixExprParts_tie incl. the Add branch: sameSp_py, mergeAll_flat; one hypothesis: a product has at least two '
+           'factors, which SymPy guarantees), the helpers _is_negative_power, _solve_real, the singular-point comparison and the '
+           'top-candidate loop of _get_singularity (onTopLoop_tie). Of _get_singularity the numerator / denominator partition, the '
+           'orientation loop, the fp2 loop body and the recording loop remain leaves (every tie quantifies over the detector).',
     'C13': 'Tied (Tie/Cmeta*.lean): has_cmeta_id, get_variable_by_cmeta_id (every argument kind), get_variables_by_rdf, '
            'get_variable_by_ontology_term = Model.hasCmetaId / getVariableByCmetaId / byRdf / byTerm; the mutating '
            'transfer_cmeta_id, add_cmeta_id (with its uniqueness loop), add_variable, remove_variable in a state-passing monad '
@@ -86,7 +97,16 @@ TIE = {
            'order in which the variable list is visited (graph_independent).',
     'C16': 'Tied (Tie/UnitsInit.lean, Tie/Units.lean): UnitStore.__init__ = Units.Wire.World.newStore (id from the process-wide '
            'counter, prefix text, own or shared registry, initial known names: init_tie, init_prefix), _prefix_name / '
-           '_prefix_expression = Units.prefixName / mangle, is_defined, get_unit, format = Iso.formatName.',
+           '_prefix_expression = Units.prefixName / mangle, is_defined, get_unit, format = Iso.formatName. MODEL-LEVEL HALF '
+           '(new: lean/Cellml/Iso/Process.lean, Props/C16Process.lean, 52 theorems): a model of the whole process state - '
+           'every piece of state that outlives a call and is not owned by one instance was inventoried from the source '
+           '(UnitStore._next_id, _singularity_fixes.ONE, the two lru_caches, the MathML handler table, the one mutable default '
+           'argument) - with inv_reachable, frame_model / frame_model_run (an operation not acting on model j leaves its '
+           'variables, equations, the unit of every quantity, cmeta ids and its cached analysis answers unchanged, for every '
+           'finite interleaving, separate and shared registries), cache_key_sound (keys of different models differ: their V '
+           'differ), one_not_mutated; Tie/Iso2.lean ties the cache KEYS to the def lines and call sites of the two cached '
+           'functions (dropping V from a key breaks the build), Model.__init__ (every container is per instance), '
+           'create_quantity, Quantity.__new__ / Variable.__new__, _float_dummies.',
     'C17': 'Tied: Parser.parse = C17.loadFull stage by stage (parse_tie), _determine_connection_direction, the '
            '_add_connections loop (terminates or raises exactly as Load.connectLoop), _add_relationships / '
            '_handle_component_ref, _add_components (reactions, component units), _add_units / _make_pint_unit_definition '
